@@ -59,3 +59,20 @@ def _w_deep_eq():
     import specs.rfc9535_filter as fspec
 
     return env.compare([1], "==", [True]) != fspec.rfc_compare([1], "==", [True])
+
+
+# ------------------------------------------------------------------ C02: `$` inside a nested filter query
+
+@carveout("nested_root_is_not_current")
+def _nested_root(ctx):
+    """The embedded relative query is started with the candidate as its own root: wrong exactly
+    when the candidate is not the root of the query argument."""
+    return ctx.inputs["root"] != ctx.inputs["current"]
+
+
+@witness("nested_dollar_denotes_candidate")
+def _w_nested_root():
+    jp = importlib.import_module("jsonpath")
+    doc = {"x": 2, "a": [{"b": [1, 2]}, {"b": [3]}]}
+    # RFC 9535: `$` is the query argument at every depth -> the first element of a (b contains 2 == $.x)
+    return jp.findall("$.a[?@.b[?@ == $.x]]", doc) != [{"b": [1, 2]}]
